@@ -6,6 +6,8 @@ moves Initial->Started and otherwise restores; every construction of a SpanGuard
 `completion` from the previous guard (monotone enablement) or, in `new`, from the filter result;
 builders take all three fields; Timer reads; the panic arm of the default completion; the level
 plumbing of the macro completion hooks."""
+import re
+
 from . import common, mir
 from .mir import o_str
 
@@ -701,6 +703,51 @@ def run(chk):
                            % (b.key, "/".join(sorted(set(w))), ", ".join(KNOWN[:5]) + ", ...")), [], b.span
         return True, "", ["%d writers, all decided by the typestate rules" % n]
     chk.ob("C05.R8:who-writes-guard-state", "the span guard's state, data and completion are changed only by the methods the typestate rules decide", who_writes_guard_state)
+
+    # ---- R9: no user code runs while the guard is disarmed ------------------------------------------------------------------------------------
+    # A builder step rebuilds the guard from parts it `take`s out of `self`; the old `self` is then an empty shell whose Drop completes nothing.  If a
+    # caller-supplied callable runs in that window and panics, the unwinding finds only the shell: a span that was started and enabled yields *no*
+    # completion - "however it ends ... or panic unwinding" fails.  One obligation per SpanGuard method that takes the guard apart.
+    def disarmed_rule(b):
+        def f():
+            takes = [c for c in b.calls(normal_only=True) if c.callee.get("name") == "take" and c.args
+                     and (mir.o_field_path(b.origin(c.args[0], through_calls=("deref_mut",)))[1] or [None])[-1] in ("data", "state", "completion")
+                     and common.has_root(b.origin(c.args[0], through_calls=("deref_mut",)), "param", 1)]
+            if not takes:
+                return True, "", ["does not take the guard apart"]
+            after = set()
+            for t in takes:
+                after |= set(b.reachable_from(t.bb))
+            for x in [b] + P.closures_of(b):
+                for c in x.calls(normal_only=True):
+                    if c.callee.get("name") not in ("call_once", "call_mut", "call"):
+                        continue
+                    o = x.origin(c.args[0])
+                    user = False
+                    if x is b:
+                        user = o[0] == "param" and o[1] >= 2
+                        site = c.bb
+                    else:
+                        if o[0] == "capture":
+                            src, sb = common.capture_source(P, x, o)
+                            user = src is not None and src[0] == "param" and src[1] >= 2
+                        # where the closure is used in the parent
+                        site = None
+                        for bb, j, st in b.statements(normal_only=True):
+                            if st["k"] == "assign" and st["rv"]["k"] == "agg" and st["rv"].get("def") == x.key:
+                                site = bb
+                    if user and site is not None and (site in after or any(site == t.bb for t in takes)):
+                        return False, ("%s calls the caller's `%s` after it has taken %s out of the guard and before the new guard exists: if that call panics, the "
+                                       "unwinding drops an empty shell and a started, enabled span completes zero times"
+                                       % (b.key, (o[1] if o[0] == "capture" and isinstance(o[1], str) else (o[2] if len(o) > 2 else "closure")), "/".join(sorted({(mir.o_field_path(b.origin(t.args[0], through_calls=("deref_mut",)))[1] or ["?"])[-1] for t in takes})))), [], c.loc
+            return True, "", [t.loc for t in takes]
+        return f
+    n_dis = 0
+    for k, b in sorted(P.bodies.items()):
+        if k.startswith("emit::span::SpanGuard::<") and not b.is_closure and b.argc >= 2:
+            n_dis += 1
+            chk.ob("C05.R9.disarmed:%s" % re.sub(r"::<[^>]*>", "", k), "no caller-supplied code runs between taking the guard apart and rebuilding it", disarmed_rule(b))
+    chk.floor("SpanGuard methods with parameters examined for user calls while disarmed", n_dis, 5)
     return chk
 
 
